@@ -183,3 +183,390 @@ Proof.
   - apply opened_lt in O; auto. lia.
   - destruct (not_opened h _ W O). auto.
 Qed.
+
+(* ------------------------------------------------------------------ one HAL call preserves the invariant *)
+
+Definition st_of (x : hal * res * list ev) : hal := fst (fst x).
+Definition res_of (x : hal * res * list ev) : res := snd (fst x).
+Definition ev_of (x : hal * res * list ev) : list ev := snd x.
+
+Ltac unf := unfold step, camera_open, camera_close, camera_set, camera_passthrough, camera_start, camera_stop,
+  camera_execute_trigger, camera_get_frame, get_state, storage_open, storage_set, storage_void, storage_start,
+  storage_stop, storage_append, storage_close, storage_validate, storage_close_ev, storage_stop_dev, camera_stop_dev,
+  camera_close_ev, driver_close_device, driver_open_device, st_of, res_of, ev_of, wf_op, is_cam_op, fixed.
+
+Definition is_open_op (o : op) : bool :=
+  match o with OCamOpen _ _ _ | OStoOpen _ _ _ _ | OStoValidate _ _ _ _ _ _ => true | _ => false end.
+
+(* every call that cannot hand out a new object *)
+Lemma step_nonopen : forall s h o, Inv s h -> is_open_op o = false ->
+  Inv (st_of (step fixed s o)) (rev (ev_of (step fixed s o)) ++ h).
+Proof.
+  intros [hdv n] h o HI NO.
+  destruct hdv as [[i k st]|]; [destruct k|]; destruct o; try discriminate NO; unf;
+  cbn [hd d_id d_kind d_st nopen with_dev set_st negb v_d10 v_d17 v_d27 fst snd rev app];
+  try assumption.
+  all: repeat brk; cbn [fst snd rev app]; try assumption.
+  all: leaf.
+  all: try (intros d; cbn; dec_eqb; cbn; intros; apply RS; auto).
+  all: try (intros d; destruct (Nat.eq_dec i d) as [<-|]; repeat (cbn; consts; dec_eqb); intros; try lia;
+            try (apply RS; auto; congruence)).
+Qed.
+
+(* camera_open, storage_open, storage_validate: the new object gets the number [nopen s] *)
+Lemma step_open : forall s h o, Inv s h -> is_open_op o = true ->
+  Inv (st_of (step fixed s o)) (rev (ev_of (step fixed s o)) ++ h).
+Proof.
+  intros [hdv n] h o HI NO.
+  assert (FR := fresh_id h (i_wf _ _ HI)). rewrite (i_n _ _ HI) in FR. cbn [nopen] in FR. destruct FR as (FO & FD & FC).
+  destruct hdv as [[i k st]|]; [destruct k|]; destruct o; try discriminate NO; unf;
+  cbn [hd d_id d_kind d_st nopen with_dev set_st negb v_d10 v_d17 v_d27 fst snd rev app];
+  try assumption.
+  all: repeat brk; cbn [fst snd rev app]; try assumption.
+  all: try (assert (i <> n) by (intros ->; destruct HI as [_ _ [[HH _] _] _]; cbn in HH; congruence)).
+  all: leaf.
+  all: intros d; destruct (Nat.eq_dec n d) as [<-|];
+    repeat (cbn; consts; dec_eqb; rewrite ?FO, ?FD, ?FC); intros; try discriminate; try lia; try congruence;
+    try (apply RS; auto; congruence).
+Qed.
+
+Lemma step_inv : forall s h o, Inv s h -> Inv (st_of (step fixed s o)) (rev (ev_of (step fixed s o)) ++ h).
+Proof.
+  intros s h o HI. destruct (is_open_op o) eqn:E; [apply step_open | apply step_nonopen]; auto.
+Qed.
+
+(* ------------------------------------------------------------------ whole histories *)
+
+Lemma run_cons : forall v s o ops,
+  run v s (o :: ops) =
+  (fst (run v (st_of (step v s o)) ops), ev_of (step v s o) ++ snd (run v (st_of (step v s o)) ops)).
+Proof.
+  intros. cbn [run]. unfold st_of, ev_of. destruct (step v s o) as [[s1 r] es]. cbn [fst snd].
+  destruct (run v s1 ops). reflexivity.
+Qed.
+
+Lemma run_inv : forall ops s h, Inv s h -> Inv (fst (run fixed s ops)) (rev (snd (run fixed s ops)) ++ h).
+Proof.
+  induction ops as [|o ops IH]; intros s h HI.
+  - cbn. assumption.
+  - rewrite run_cons. cbn [fst snd]. rewrite rev_app_distr, <- app_assoc. apply IH. apply step_inv. assumption.
+Qed.
+
+Lemma run_app : forall v ops1 ops2 s,
+  run v s (ops1 ++ ops2) =
+  (fst (run v (fst (run v s ops1)) ops2), snd (run v s ops1) ++ snd (run v (fst (run v s ops1)) ops2)).
+Proof.
+  induction ops1 as [|o ops1 IH]; intros ops2 s.
+  - cbn. destruct (run v s ops2); reflexivity.
+  - rewrite <- app_comm_cons, !run_cons. cbn [fst snd]. rewrite IH. cbn [fst snd]. rewrite app_assoc. reflexivity.
+Qed.
+
+Lemma final_snoc : forall ops o, final (ops ++ [o]) = st_of (step fixed (final ops) o).
+Proof.
+  intros. unfold final. rewrite run_app. cbn [fst]. rewrite run_cons. reflexivity.
+Qed.
+
+Lemma trace_snoc : forall ops o, trace (ops ++ [o]) = trace ops ++ ev_of (step fixed (final ops) o).
+Proof.
+  intros. unfold trace, final. rewrite run_app. cbn [snd]. rewrite run_cons. cbn [snd run]. rewrite app_nil_r. reflexivity.
+Qed.
+
+Theorem inv_final : forall ops, Inv (final ops) (rev (trace ops)).
+Proof.
+  intros. unfold final, trace. rewrite <- (app_nil_r (rev _)). apply run_inv. apply Inv_init.
+Qed.
+
+(* every event of every trace was legal when it happened *)
+Lemma event_legal : forall ops t1 e t2, trace ops = t1 ++ e :: t2 -> legal (rev t1) e.
+Proof.
+  intros ops t1 e t2 E. assert (W := i_wf _ _ (inv_final ops)).
+  rewrite E, rev_app_distr in W. cbn [rev] in W. rewrite <- app_assoc in W. cbn [app] in W.
+  apply wf_split in W. assumption.
+Qed.
+
+Lemma prefix_wf : forall ops t1 t2, trace ops = t1 ++ t2 -> wf_hist (rev t1).
+Proof.
+  intros ops t1 t2 E. assert (W := i_wf _ _ (inv_final ops)).
+  rewrite E, rev_app_distr in W. apply wf_app in W. assumption.
+Qed.
+
+(* ------------------------------------------------------------------ explicit witnesses for the two scans *)
+
+Definition starts (d : nat) (e : ev) : Prop :=
+  (exists st, e = ECall d CStart st Ok) \/ (exists r, e = EOpen r (Some (d, Running))).
+Definition decisive_stop (d : nat) (e : ev) : Prop :=
+  exists st r, e = ECall d CStop st r /\ (r = Ok \/ r = Err).
+
+(* cam_started: some start answered Ok (or an open that handed out a Running object), and no stop answered
+   Ok or Err after it *)
+Lemma cam_started_witness : forall d h, cam_started d h = true ->
+  exists h2 e h1, h = h2 ++ e :: h1 /\ starts d e /\ forall e', In e' h2 -> ~ decisive_stop d e'.
+Proof.
+  induction h as [|e h IH]; cbn; intros H; [discriminate|].
+  assert (REC : cam_started d h = true -> ~ decisive_stop d e ->
+                exists h2 e0 h1, e :: h = h2 ++ e0 :: h1 /\ starts d e0 /\ forall e', In e' h2 -> ~ decisive_stop d e').
+  { intros H' ND. destruct (IH H') as (h2 & e0 & h1 & -> & S0 & NS).
+    exists (e :: h2), e0, h1. split; [reflexivity|]. split; [assumption|].
+    intros e' [<-|I]; auto. }
+  destruct e as [r [[d' s0]|] | d' r | d' r | d' c st r | d' a];
+    try (apply REC; [assumption | intros (st' & r' & E & _); discriminate E]).
+  - destruct (Nat.eqb_spec d' d).
+    + subst. apply Z.eqb_eq in H. subst. exists [], (EOpen r (Some (d, Running))), h.
+      split; [reflexivity|]. split; [right; eauto | intros e' []].
+    + apply REC; [assumption | intros (st' & r' & E & _); discriminate E].
+  - destruct c; try (apply REC; [assumption | intros (st' & r' & E & _); discriminate E]).
+    + (* CStart *) destruct ((d' =? d)%nat && (r =? Ok)) eqn:B.
+      * apply andb_true_iff in B. destruct B as [B1 B2]. apply Nat.eqb_eq in B1. apply Z.eqb_eq in B2. subst.
+        exists [], (ECall d CStart st Ok), h. split; [reflexivity|]. split; [left; eauto | intros e' []].
+      * apply REC; [assumption | intros (st' & r' & E & _); discriminate E].
+    + (* CStop *) destruct ((d' =? d)%nat && ((r =? Ok) || (r =? Err))) eqn:B; [discriminate|].
+      apply REC; [assumption|]. intros (st' & r' & E & RR). inversion E; subst.
+      rewrite Nat.eqb_refl in B. cbn in B. destruct RR as [-> | ->]; cbn in B; discriminate.
+Qed.
+
+Definition reports (d : nat) (e : ev) (v : Z) : Prop :=
+  (exists c st, returns_state c = true /\ e = ECall d c st v) \/ (exists r, e = EOpen r (Some (d, v))).
+
+(* sto_last: the most recent state the driver reported for d *)
+Lemma sto_last_witness : forall d v h, sto_last d h = Some v ->
+  exists h2 e h1, h = h2 ++ e :: h1 /\ reports d e v /\ forall e' v', In e' h2 -> ~ reports d e' v'.
+Proof.
+  induction h as [|e h IH]; cbn; intros H; [discriminate|].
+  assert (REC : sto_last d h = Some v -> (forall v', ~ reports d e v') ->
+                exists h2 e0 h1, e :: h = h2 ++ e0 :: h1 /\ reports d e0 v /\ forall e' v', In e' h2 -> ~ reports d e' v').
+  { intros H' ND. destruct (IH H') as (h2 & e0 & h1 & -> & S0 & NS).
+    exists (e :: h2), e0, h1. split; [reflexivity|]. split; [assumption|].
+    intros e' v' [<-|I]; auto. }
+  destruct e as [r [[d' s0]|] | d' r | d' r | d' c st r | d' a];
+    try (apply REC; [assumption | intros v' [(c' & st' & _ & E) | (r' & E)]; discriminate E]).
+  - destruct (Nat.eqb_spec d' d).
+    + subst. inversion H; subst. exists [], (EOpen r (Some (d, v))), h.
+      split; [reflexivity|]. split; [right; eauto | intros e' v' []].
+    + apply REC; [assumption|]. intros v' [(c' & st' & _ & E) | (r' & E)]; [discriminate E | inversion E; congruence].
+  - destruct ((d' =? d)%nat && returns_state c) eqn:B.
+    + apply andb_true_iff in B. destruct B as [B1 B2]. apply Nat.eqb_eq in B1. subst. inversion H; subst.
+      exists [], (ECall d c st v), h. split; [reflexivity|]. split; [left; eauto | intros e' v' []].
+    + apply REC; [assumption|]. intros v' [(c' & st' & RS & E) | (r' & E)]; [|discriminate E].
+      inversion E; subst. rewrite Nat.eqb_refl, RS in B. discriminate.
+Qed.
+
+(* the same two facts over traces (oldest first) *)
+Lemma camera_started_witness : forall d t, camera_started d t = true ->
+  exists ta e tb, t = ta ++ e :: tb /\ starts d e /\ forall e', In e' tb -> ~ decisive_stop d e'.
+Proof.
+  unfold camera_started. intros d t H. apply cam_started_witness in H. destruct H as (h2 & e & h1 & E & S0 & NS).
+  exists (rev h1), e, (rev h2). split.
+  - rewrite <- (rev_involutive t), E, rev_app_distr. cbn [rev]. rewrite <- app_assoc. reflexivity.
+  - split; [assumption|]. intros e' I. apply NS. apply in_rev. assumption.
+Qed.
+
+Lemma last_reported_witness : forall d v t, last_reported_state d t = Some v ->
+  exists ta e tb, t = ta ++ e :: tb /\ reports d e v /\ forall e' v', In e' tb -> ~ reports d e' v'.
+Proof.
+  unfold last_reported_state. intros d v t H. apply sto_last_witness in H. destruct H as (h2 & e & h1 & E & S0 & NS).
+  exists (rev h1), e, (rev h2). split.
+  - rewrite <- (rev_involutive t), E, rev_app_distr. cbn [rev]. rewrite <- app_assoc. reflexivity.
+  - split; [assumption|]. intros e' v' I. apply NS. apply in_rev. assumption.
+Qed.
+
+(* ------------------------------------------------------------------ C11: stop / io need Running *)
+
+Lemma call_needs_running : forall ops t1 d c st r t2,
+  trace ops = t1 ++ ECall d c st r :: t2 -> needs_running c = true ->
+  st = Running /\
+  (is_sto_call c = true -> last_reported_state d t1 = Some Running) /\
+  (is_sto_call c = false ->
+     exists ta e tb, t1 = ta ++ e :: tb /\ starts d e /\ forall e', In e' tb -> ~ decisive_stop d e').
+Proof.
+  intros ops t1 d c st r t2 E NR. apply event_legal in E. cbn in E. destruct E as (_ & SL & RU).
+  destruct (RU NR) as [-> CS]. split; [reflexivity|]. split.
+  - intros SC. unfold last_reported_state. auto.
+  - intros SC. apply camera_started_witness. unfold camera_started. auto.
+Qed.
+
+Lemma stop_needs_running : forall ops t1 d c st r t2,
+  trace ops = t1 ++ ECall d c st r :: t2 -> c = CStop \/ c = SStop ->
+  st = Running /\
+  (c = SStop -> last_reported_state d t1 = Some Running) /\
+  (c = CStop ->
+     exists ta e tb, t1 = ta ++ e :: tb /\ starts d e /\ forall e', In e' tb -> ~ decisive_stop d e').
+Proof.
+  intros ops t1 d c st r t2 E C.
+  destruct (call_needs_running ops t1 d c st r t2 E) as (A & B & D); [destruct C; subst; reflexivity|].
+  split; [assumption|]. split; intros ->; auto.
+Qed.
+
+Lemma io_needs_running : forall ops t1 d c st r t2,
+  trace ops = t1 ++ ECall d c st r :: t2 -> c = CGetFrame \/ c = CTrigger \/ c = SAppend ->
+  st = Running /\
+  (c = SAppend -> last_reported_state d t1 = Some Running) /\
+  (c <> SAppend ->
+     exists ta e tb, t1 = ta ++ e :: tb /\ starts d e /\ forall e', In e' tb -> ~ decisive_stop d e').
+Proof.
+  intros ops t1 d c st r t2 E C.
+  destruct (call_needs_running ops t1 d c st r t2 E) as (A & B & D); [destruct C as [->|[->| ->]]; reflexivity|].
+  split; [assumption|]. split.
+  - intros ->; auto.
+  - intros NA. apply D. destruct C as [->|[->| ->]]; try reflexivity. congruence.
+Qed.
+
+(* storage: the state field the driver sees at EVERY storage call is the state it last reported *)
+Lemma storage_call_state : forall ops t1 d c st r t2,
+  trace ops = t1 ++ ECall d c st r :: t2 -> is_sto_call c = true -> last_reported_state d t1 = Some st.
+Proof.
+  intros ops t1 d c st r t2 E SC. apply event_legal in E. cbn in E. destruct E as (_ & SL & _).
+  unfold last_reported_state. auto.
+Qed.
+
+(* ------------------------------------------------------------------ C11: close once, nothing afterwards *)
+
+Lemma opened_rev : forall d t, opened d (rev t) = true <-> opened_in d t.
+Proof.
+  intros. rewrite opened_In. unfold opened_in. split; intros (r & s0 & H); exists r, s0; [apply in_rev | apply in_rev in H]; assumption.
+Qed.
+
+Lemma nothing_after_close : forall ops d t1 r t2,
+  trace ops = t1 ++ EClose d r :: t2 -> forall e, In e t2 -> ev_dev e <> Some d.
+Proof.
+  intros ops d t1 r t2 E e I ED.
+  apply in_split in I. destruct I as (u & w & ->).
+  assert (L0 : legal (rev t1) (EClose d r)) by (eapply event_legal; eauto).
+  cbn in L0. destruct L0 as (O0 & _ & _).
+  assert (E' : trace ops = (t1 ++ EClose d r :: u) ++ e :: w) by (rewrite E, <- app_assoc; reflexivity).
+  assert (L := event_legal _ _ _ _ E').
+  assert (W := prefix_wf _ _ _ E').
+  set (p := rev (t1 ++ EClose d r :: u)) in *.
+  assert (OP : opened d p = true).
+  { unfold p. rewrite rev_app_distr, opened_app. cbn [rev]. rewrite opened_app. rewrite O0.
+    rewrite !orb_true_r. reflexivity. }
+  assert (NC : (nclose d p > 0)%nat).
+  { unfold p. rewrite rev_app_distr, nclose_app. cbn [rev]. rewrite nclose_app. cbn. rewrite Nat.eqb_refl. lia. }
+  destruct (ev_dev_none_or e d ED p L) as [(r' & s0 & ->) | (_ & Z)].
+  - cbn in L. destruct L as [L _]. apply opened_lt in OP; auto. lia.
+  - lia.
+Qed.
+
+Lemma only_opened_objects : forall ops d t1 e t2,
+  trace ops = t1 ++ e :: t2 -> ev_dev e = Some d ->
+  (exists r s0, e = EOpen r (Some (d, s0))) \/ opened_in d t1.
+Proof.
+  intros ops d t1 e t2 E ED. apply event_legal in E.
+  destruct (ev_dev_none_or e d ED _ E) as [H | (H & _)]; [left; assumption | right; apply opened_rev; assumption].
+Qed.
+
+Lemma closed_iff_not_held : forall ops d,
+  open_succeeded d (trace ops) ->
+  if holds (final ops) d then ~ closed_in d (trace ops) else closed_in d (trace ops).
+Proof.
+  intros ops d (O & D).
+  assert (I := inv_final ops).
+  apply opened_rev in O. apply in_rev in D. apply described_In in D.
+  unfold holds. destruct I as [W N HD RS]. unfold closed_in.
+  destruct (hd (final ops)) as [dv|] eqn:H.
+  - destruct (Nat.eqb_spec (d_id dv) d).
+    + subst. destruct HD as ((_ & _ & C) & _). intros (r & I). apply in_rev in I.
+      assert (nclose (d_id dv) (rev (trace ops)) > 0)%nat by (apply nclose_pos_In; eauto). lia.
+    + assert (C : nclose d (rev (trace ops)) = 1%nat).
+      { apply RS; auto. unfold hd_id. rewrite H. congruence. }
+      assert (P : (nclose d (rev (trace ops)) > 0)%nat) by lia.
+      apply nclose_pos_In in P. destruct P as (r & I). exists r. apply in_rev. assumption.
+  - assert (C : nclose d (rev (trace ops)) = 1%nat).
+    { apply RS; auto. unfold hd_id. rewrite H. congruence. }
+    assert (P : (nclose d (rev (trace ops)) > 0)%nat) by lia.
+    apply nclose_pos_In in P. destruct P as (r & I). exists r. apply in_rev. assumption.
+Qed.
+
+(* the client's handle always is an object whose open succeeded and that has not been closed *)
+Lemma held_is_open : forall ops d, holds (final ops) d = true ->
+  open_succeeded d (trace ops) /\ ~ closed_in d (trace ops).
+Proof.
+  intros ops d H. assert (I := inv_final ops). unfold holds in H.
+  destruct (hd (final ops)) as [dv|] eqn:E; [|discriminate]. apply Nat.eqb_eq in H. subst.
+  destruct I as [_ _ HD _]. rewrite E in HD. destruct HD as ((O & D & C) & _).
+  split; [split|].
+  - apply opened_rev. assumption.
+  - apply in_rev. apply described_In. assumption.
+  - intros (r & I). apply in_rev in I.
+    assert (nclose (d_id dv) (rev (trace ops)) > 0)%nat by (apply nclose_pos_In; eauto). lia.
+Qed.
+
+(* the HAL close call for the handle's kind *)
+Definition closes (s : hal) (o : op) : bool :=
+  match hd s, o with
+  | Some dv, OCamClose _ => match d_kind dv with KCam => true | KSto => false end
+  | Some dv, OStoClose _ _ => match d_kind dv with KSto => true | KCam => false end
+  | _, _ => false
+  end.
+
+Lemma hal_close_closes : forall ops o d,
+  holds (final ops) d = true -> closes (final ops) o = true ->
+  hd (final (ops ++ [o])) = None /\ closed_in d (trace (ops ++ [o])).
+Proof.
+  intros ops o d H C. rewrite final_snoc, trace_snoc. unfold holds, closes, closed_in in *.
+  destruct (final ops) as [hdv n]. cbn [hd] in *.
+  destruct hdv as [[i k st]|]; [|discriminate]. cbn [d_id d_kind] in *. apply Nat.eqb_eq in H. subst.
+  destruct o; try discriminate C; destruct k; try discriminate C; unf;
+    cbn [hd d_id d_kind d_st nopen negb v_d10 fst snd].
+  - split; [reflexivity|]. exists rclose. apply in_or_app. right. cbn. auto.
+  - split; [reflexivity|]. exists rclose. apply in_or_app. right.
+    repeat brk; cbn [fst snd]; apply in_or_app; right; cbn; auto.
+Qed.
+
+(* a HAL open that returns NULL leaves the client without a device (so every object it opened is closed) *)
+Lemma failed_open_no_handle : forall ops o,
+  res_of (step fixed (final ops) o) = RHandle false -> hd (final (ops ++ [o])) = None.
+Proof.
+  intros ops o R. rewrite final_snoc. revert R. destruct (final ops) as [hdv n].
+  destruct hdv as [[i k st]|]; [destruct k|]; destruct o; unf;
+    cbn [hd d_id d_kind d_st nopen with_dev set_st negb v_d10 v_d17 v_d27 fst snd];
+    repeat brk; cbn [fst snd hd]; intros R; try discriminate R; reflexivity.
+Qed.
+
+(* ------------------------------------------------------------------ C11: the reported state follows the table *)
+
+Lemma step_table : forall s o, abs (st_of (step fixed s o)) = state_table (abs s) o.
+Proof.
+  intros [hdv n] o. unfold abs, state_table, opens.
+  destruct hdv as [[i k st]|]; [destruct k|]; destruct o; unf;
+    cbn [hd d_id d_kind d_st nopen with_dev set_st negb v_d10 v_d17 v_d27 fst snd];
+    repeat brk; cbn [fst snd hd d_kind d_st andb negb]; eqb2prop; consts; repeat (cbn; dec_eqb);
+    try reflexivity; try congruence; try lia.
+Qed.
+
+Lemma state_follows : forall ops, abs (final ops) = fold_left state_table ops None.
+Proof.
+  intros ops. pattern ops. apply rev_ind.
+  - reflexivity.
+  - intros o l IH. rewrite final_snoc, step_table, IH, fold_left_app. reflexivity.
+Qed.
+
+Lemma reported_abs : forall s, reported s = match abs s with None => Closed | Some (_, st) => st end.
+Proof. intros [[dv|] n]; reflexivity. Qed.
+
+(* the state changes only in a HAL call during which the driver was called *)
+Lemma state_changes_only_on_driver_call : forall s o,
+  existsb is_drv_call (ev_of (step fixed s o)) = false -> abs (st_of (step fixed s o)) = abs s.
+Proof.
+  intros [hdv n] o. unfold abs.
+  destruct hdv as [[i k st]|]; [destruct k|]; destruct o; unf;
+    cbn [hd d_id d_kind d_st nopen with_dev set_st negb v_d10 v_d17 v_d27 fst snd];
+    repeat brk; cbn [fst snd hd d_kind d_st app existsb is_drv_call orb];
+    intros H; try discriminate H; try reflexivity.
+Qed.
+
+(* storage: what storage_get_state reports IS the state the driver last reported *)
+Lemma storage_reports_last : forall ops dv,
+  hd (final ops) = Some dv -> d_kind dv = KSto -> last_reported_state (d_id dv) (trace ops) = Some (d_st dv).
+Proof.
+  intros ops dv H K. destruct (inv_final ops) as [_ _ HD _]. rewrite H in HD. destruct HD as (_ & S & _).
+  unfold last_reported_state. auto.
+Qed.
+
+(* camera: Running is reported only for a started camera *)
+Lemma camera_running_started : forall ops dv,
+  hd (final ops) = Some dv -> d_kind dv = KCam -> d_st dv = Running ->
+  exists ta e tb, trace ops = ta ++ e :: tb /\ starts (d_id dv) e /\ forall e', In e' tb -> ~ decisive_stop (d_id dv) e'.
+Proof.
+  intros ops dv H K R. destruct (inv_final ops) as [_ _ HD _]. rewrite H in HD. destruct HD as (_ & _ & C).
+  apply camera_started_witness. unfold camera_started. auto.
+Qed.
